@@ -5,8 +5,11 @@ package worlds
 import (
 	"encoding/json"
 	"fmt"
+	"io"
 	"os"
 	"runtime"
+	"runtime/debug"
+	"strings"
 	"sync"
 	"time"
 
@@ -23,6 +26,7 @@ import (
 	xstream "mosn.io/mosn/pkg/stream/xprotocol"
 	"mosn.io/mosn/pkg/upstream/cluster"
 	"mosn.io/mosn/pkg/verifhook"
+	"mosn.io/pkg/utils"
 
 	_ "mosn.io/mosn/pkg/filter/network/connectionmanager"
 	_ "mosn.io/mosn/pkg/filter/network/proxy"
@@ -61,6 +65,66 @@ func InstallHooks(s *sim.Sim, n *sim.Net) {
 	verifhook.ListenFunc = n.Listen
 	verifhook.YieldFunc = s.Yield
 	verifhook.ProbeFunc = s.Probe
+	// an existing seam: panics recovered by utils.GoWithRecover (read loops, worker pool hand-offs) are
+	// reported to a registered logger, from the panicking goroutine (its stack still shows the origin)
+	recMu.Lock()
+	recovered = nil
+	recMu.Unlock()
+	utils.RegisterRecoverLogger(func(_ io.Writer, r interface{}) {
+		recMu.Lock()
+		recovered = append(recovered, recPanic{fmt.Sprint(r), string(debug.Stack())})
+		recMu.Unlock()
+	})
+}
+
+type recPanic struct{ val, stack string }
+
+var (
+	recMu     sync.Mutex
+	recovered []recPanic
+)
+
+// panicOrigin: the function that panicked — the first non-runtime frame below the last panic() frame.
+func panicOrigin(stack string) string {
+	lines := strings.Split(stack, "\n")
+	start := -1
+	for i, l := range lines {
+		if strings.HasPrefix(l, "panic(") {
+			start = i
+		}
+	}
+	for i := start + 1; i >= 1 && i < len(lines); i++ {
+		l := lines[i]
+		if l == "" || l[0] == '\t' || !strings.HasPrefix(l, "mosn.io/mosn/") {
+			continue // runtime, standard library and third-party frames: the caller is what matters
+		}
+		if j := strings.LastIndex(l, "("); j > 0 {
+			l = l[:j]
+		}
+		return l
+	}
+	return "?"
+}
+
+// CheckRecoveredPanics (C08): a panic that escaped one of MOSN's own decoders — xprotocol codecs and
+// matchers, HTTP/2 framer, HPACK — is a violation even though the goroutine wrapper recovered it.
+func CheckRecoveredPanics(s *sim.Sim, stats map[string]int) {
+	recMu.Lock()
+	rs := recovered
+	recovered = nil
+	recMu.Unlock()
+	for _, r := range rs {
+		o := panicOrigin(r.stack)
+		if strings.HasPrefix(o, "mosn.io/mosn/pkg/protocol/") || strings.HasPrefix(o, "mosn.io/mosn/pkg/module/http2") {
+			fn := o
+			if i := strings.LastIndex(fn, "/"); i >= 0 {
+				fn = fn[i+1:]
+			}
+			s.Violate("C08", "decoder_panic:"+fn, "a MOSN decoder panicked (recovered by the goroutine wrapper): %s in %s", r.val, o)
+		} else {
+			stats["recovered_panic_elsewhere:"+o]++
+		}
+	}
 }
 
 // StartMosn starts a real MOSN from a JSON configuration inside the bubble.
